@@ -311,6 +311,54 @@ def eval_spec(expr, env, old_env, strict=False):
     return eval(compile(tree, "<spec>", "eval"), g)
 
 
+class _StubNS:
+    """stand-in for an external collaborator (e.g. a TimeSeries) in replays: only the stubbed members exist"""
+
+
+def install_stubs(self_obj, stubs, values):
+    """make the real method see the contract's ghost values for the stubbed external sub-expressions"""
+    overrides = {}
+    for key, gname in stubs.items():
+        val = values.get(gname)
+        node = ast.parse(key, mode="eval").body
+
+        def holder(attr_node):
+            # attr_node: Attribute chain rooted at `self`; returns the object that carries the last attribute
+            chain = []
+            cur = attr_node
+            while isinstance(cur, ast.Attribute):
+                chain.append(cur.attr)
+                cur = cur.value
+            chain.reverse()
+            obj = self_obj
+            for a in chain[:-1]:
+                nxt = obj.__dict__.get(a) if hasattr(obj, "__dict__") else None
+                if not isinstance(nxt, _StubNS):
+                    nxt = _StubNS()
+                    obj.__dict__[a] = nxt
+                obj = nxt
+            return obj, chain[-1], len(chain)
+
+        if isinstance(node, ast.Call) and isinstance(node.func, ast.Attribute):
+            obj, name, depth = holder(node.func)
+            obj.__dict__[name] = (lambda v: (lambda *a, **k: (np.array(v, dtype=float).copy() if isinstance(v, (list, np.ndarray)) else v)))(val)
+        elif isinstance(node, ast.Attribute):
+            obj, name, depth = holder(node)
+            if depth == 1 and isinstance(getattr(type(self_obj), name, None), property):
+                overrides[name] = property((lambda v: (lambda self: v))(val))
+            else:
+                obj.__dict__[name] = val
+        elif isinstance(node, ast.Compare) and isinstance(node.ops[0], ast.In) and isinstance(node.left, ast.Constant) and isinstance(node.comparators[0], ast.Attribute):
+            obj, name, depth = holder(node.comparators[0])
+            obj.__dict__[name] = ("x" + node.left.value) if val else "x"
+    if overrides:
+        cls = type(type(self_obj).__name__ + "WithStubs", (type(self_obj),), overrides)
+        new = object.__new__(cls)
+        new.__dict__.update(self_obj.__dict__)
+        return new
+    return self_obj
+
+
 def run_replay(desc, contract, clause_name=None):
     """returns dict(verdict=..., detail=...) with verdict in
        'violates' (requires hold concretely, the clause fails on the real code), 'holds', 'requires-fail', 'error'"""
@@ -321,6 +369,11 @@ def run_replay(desc, contract, clause_name=None):
         return dict(out, verdict="error", detail="cannot build objects: %s: %s" % (type(e).__name__, e))
     modname, rest = desc["function"].split("#")[0].split(":")
     mod = importlib.import_module("atomica." + modname)
+    if contract.get("stubs") and self_obj is not None:
+        try:
+            self_obj = install_stubs(self_obj, contract["stubs"], args)
+        except Exception as e:
+            return dict(out, verdict="error", detail="cannot install stubs: %s: %s" % (type(e).__name__, e))
     env = dict(args)
     if self_obj is not None:
         env["self"] = self_obj
@@ -406,9 +459,11 @@ def snapshot(x, memo):
     replay harness carry only the fields of the schema)"""
     if id(x) in memo:
         return memo[id(x)]
+    import types
+
     if isinstance(x, np.ndarray):
         y = x.copy()
-    elif isinstance(x, (int, float, str, bool, type(None), np.generic, tuple, frozenset)):
+    elif isinstance(x, (int, float, str, bool, type(None), np.generic, tuple, frozenset, types.FunctionType, types.MethodType, types.BuiltinFunctionType, type)):
         return x
     elif isinstance(x, list):
         y = []
